@@ -92,6 +92,13 @@ func ZZ_C01_Shapes() {
 		for i := range vals {
 			zzverif.Assert(vals[i].reads(pl.Get(i)), "element-value")
 		}
+		// clones of the list read like the list
+		for _, cl := range []types.List{pl.Clone(), pl.CloneTo(nil), pl.CloneTo(make([]byte, len(pl.Raw())+3))} {
+			zzverif.Assert(cl.Len() == n && string(cl.Raw()) == string(pl.Raw()), "list-clone")
+			for i := range vals {
+				zzverif.Assert(vals[i].reads(cl.Get(i)), "list-clone-element")
+			}
+		}
 
 	case 3: // message { t1: message { t3: v }, t2: v2 } written in either order
 		t1, t2, t3 := zzverif.Uint16(), zzverif.Uint16(), zzverif.Uint16()
@@ -123,6 +130,7 @@ func ZZ_C01_Shapes() {
 		m := w.Message()
 		l := m.Field(t1).List()
 		zzverif.Assert(v1.write(l) == nil && v2.write(l) == nil, "write-ok")
+		zzverif.Assert(l.Len() == 2, "writer-len-of-nested-list")
 		zzverif.Assert(l.End() == nil, "end-ok")
 		zzverif.Assert(v3.write(m.Field(t2)) == nil, "write-ok")
 		out, err := m.Build()
@@ -143,7 +151,9 @@ func ZZ_C01_Shapes() {
 		zzverif.Assert(v2.write(l) == nil, "write-ok")
 		el := l.List()
 		zzverif.Assert(v3.write(el) == nil, "write-ok")
+		zzverif.Assert(el.Len() == 1, "writer-len-of-nested-list")
 		zzverif.Assert(el.End() == nil, "end-ok")
+		zzverif.Assert(l.Len() == 3, "writer-len")
 		out, err := l.Build()
 		zzverif.Assert(err == nil, "build-ok")
 		pl := zzParseAll(out).List()
@@ -186,6 +196,8 @@ func ZZ_C01_Shapes() {
 		c2 := pm.CloneTo(dst)
 		zzverif.Assert(c2.Fields() == 1 && va.reads(c2.Message(tc).Field(ta)), "clone-to")
 		zzverif.Assert(string(c2.Raw()) == string(pm.Raw()), "clone-to-bytes")
+		c3 := pm.CloneToBuffer(buffer.New())
+		zzverif.Assert(c3.Fields() == 1 && string(c3.Raw()) == string(pm.Raw()), "clone-to-buffer")
 		w2.Free()
 
 	case 7: // Copy/Merge: A = message{ta: va, tb: vb}; B = message{td: vd}; B.Copy(A)
